@@ -533,9 +533,14 @@ OkC15(m, o) ==
 (***************************************************************************)
 (* All client monitors                                                     *)
 (***************************************************************************)
-Props == {"C05", "C06", "C07", "C08", "C10", "C11", "C12", "C13", "C15", "C17"}
+\* C03 (client part): no call ever panics; the calls that follow keep being judged by every
+\* other monitor ("remains usable")
+OkC03(m, o) == o.res # "panic"
+
+Props == {"C03", "C05", "C06", "C07", "C08", "C10", "C11", "C12", "C13", "C15", "C17"}
 Holds(p, m, o) ==
-    CASE p = "C05" -> OkC05(m, o)
+    CASE p = "C03" -> OkC03(m, o)
+      [] p = "C05" -> OkC05(m, o)
       [] p = "C06" -> OkC06(m, o)
       [] p = "C07" -> OkC07(m, o)
       [] p = "C08" -> OkC08(m, o)
